@@ -345,6 +345,8 @@ func runC05(c *report.Ctx) {
 	secretLocs := map[string]bool{"AddrManager.unlocked": true, "AddrManager.masterKeyPriv": true, "AddrManager.cryptoKeyPriv": true, "SecretKey.Key": true, "SecretKey.Parameters": true,
 		"ManagedAddress.privKey": true, "accountInfo.acctKeyPriv": true, "branchInfo.externalBranchPriv": true, "branchInfo.internalBranchPriv": true}
 	ruleCommonLock(c, func(loc string) bool { return secretLocs[loc] }, "the unlock flag, the master/crypto private keys and the cached private keys are written and read under a common exclusive lock: a refused passphrase attempt that runs concurrently with a successful one cannot leave its wrongly derived key in an unlocked manager", 3)
+	ruleRefusalByKeyMaterialOnly(c)
+	ruleClearAllKeystores(c)
 }
 
 func rootBase(fa *ssa.FieldAddr) ssa.Value {
